@@ -55,12 +55,14 @@ import time
 
 import common
 import runlib
+import c19text
 
 PROP = 'C19'
 KINDS = ['console', 'executed-only', 'zero', 'error-only', 'json']
 KEYS = ['C19_report_order', 'C19_exec_iff_start', 'C19_truth', 'C19_end_reported', 'C19_exit', 'C19_json',
         'C19_success_means_all_processed']
 OUT_KEY = 'C19_output'
+TEXT_KEY = 'C19_text'
 
 META = {
     'property': PROP,
@@ -201,6 +203,7 @@ def tee_class(kind):
             _LAST.clear()
             _LAST['kind'] = kind
             _LAST['pre_streams'] = (sys.stdout, sys.stderr)
+            self._v_log = c19text.CallLog()      # wave 5: the calls with what the text reporters read from the task
             base.__init__(self, self._v_buf, options)
 
         def _v_text(self):
@@ -226,38 +229,50 @@ def tee_class(kind):
 
         def get_status(self, task):
             rec().ev(['get_status', rec().tid(task)])
+            self._v_log.call('get_status', task)
             return base.get_status(self, task)
 
         def execute_task(self, task):
             rec().ev(['execute', rec().tid(task)])
+            self._v_log.call('execute', task)
             return base.execute_task(self, task)
 
         def add_failure(self, task, fail):
             rec().ev(['failure', rec().tid(task), runlib._fail_kind(fail), type(fail).__name__])
+            self._v_log.failure(task, fail)
             return base.add_failure(self, task, fail)
 
         def add_success(self, task):
             rec().ev(['success', rec().tid(task)])
+            self._v_log.call('success', task)
             return base.add_success(self, task)
 
         def skip_uptodate(self, task):
             rec().ev(['skip_uptodate', rec().tid(task)])
+            self._v_log.call('skip_uptodate', task)
             return base.skip_uptodate(self, task)
 
         def skip_ignore(self, task):
             rec().ev(['skip_ignore', rec().tid(task)])
+            self._v_log.call('skip_ignore', task)
             return base.skip_ignore(self, task)
 
         def cleanup_error(self, exception):
             rec().ev(['cleanup_error'])
+            try:
+                self._v_log.msg('cleanup_error', exception.get_msg())
+            except Exception:  # noqa
+                self._v_log.bad = 'cleanup message'
             return base.cleanup_error(self, exception)
 
         def runtime_error(self, msg):
             rec().ev(['runtime_error', str(msg)[:200]])
+            self._v_log.msg('runtime_error', msg)
             return base.runtime_error(self, msg)
 
         def teardown_task(self, task):
             rec().ev(['teardown', rec().tid(task)])
+            self._v_log.call('teardown', task)
             return base.teardown_task(self, task)
 
         def complete_run(self):
@@ -265,6 +280,8 @@ def tee_class(kind):
             # complete_run is called from `finally: self.finish()`: an exception that is leaving run_all is visible here
             inflight = sys.exc_info()[0]
             _LAST['inflight'] = inflight.__name__ if inflight is not None else None
+            if kind != 'json':
+                self._v_log.complete(self)
             try:
                 return base.complete_run(self)
             except BaseException as e:  # noqa
@@ -272,6 +289,9 @@ def tee_class(kind):
                 raise
             finally:
                 _LAST['text'] = self._v_text()
+                if kind != 'json':
+                    _LAST['textlog'] = self._v_log.request(kind, getattr(self, 'failure_verbosity', 0))
+                    _LAST['textlog_bad'] = self._v_log.bad
                 pre = _LAST.pop('pre_streams', (None, None))
                 # the reporter that redirects the process' streams (json) has to give them back, whatever happens
                 _LAST['streams_restored'] = (sys.stdout is pre[0] and sys.stderr is pre[1])
@@ -735,6 +755,10 @@ def failed_monitors(case, obs, ans):
             failed.append('C19_json')
     elif lean is not None and obs['err'] is None and ans.get('render') != obs.get('tokens'):
         failed.append(OUT_KEY)
+    if kind != 'json' and lean is not None and ans.get('text_out') is not None \
+            and ans['text_out'] != (obs.get('out') or {}).get('text'):
+        # wave 5: character-exact text of the real reporter vs Model/ReportText.lean on the calls it really got
+        failed.append(TEXT_KEY)
     return failed
 
 
@@ -844,6 +868,7 @@ def make_witness(case, obs, ans):
             'reporter_output': (obs['out'].get('text') or '')[:1500],
             'tokens': obs.get('tokens'), 'doc': obs.get('doc'),
             'model_render': (ans or {}).get('render'), 'model_json': (ans or {}).get('json'),
+            'model_text': ((ans or {}).get('text_out') or '')[:1500] if (ans or {}).get('text_out') is not None else None,
             'failed_monitors': sorted(failed), 'python_monitors': py, 'lean_monitors': lean, 'detail': det}
 
 
@@ -852,12 +877,45 @@ def ask19(pairs):
     if not reqs:
         return []
     try:
-        return common.drv_batch(reqs)
+        answers = common.drv_batch(reqs)
     except Exception as ex:  # noqa
         return [{'error': 'driver failed: %s' % str(ex)[:200]} for _ in reqs]
+    # wave 5: the exact text of the console-family reporters for the calls the real reporter got (Model/ReportText.lean)
+    idx = [i for i, (c, o) in enumerate(pairs) if text_comparable(c, o) is True]
+    try:
+        tans = common.drv_batch([pairs[i][1]['out']['textlog'] for i in idx])
+    except Exception as ex:  # noqa
+        tans = [{'error': str(ex)[:100]} for _ in idx]
+    for i, a in zip(idx, tans):
+        if 'error' not in a and 'error' not in answers[i]:
+            answers[i]['text_out'] = a['out']
+            answers[i]['text_happened'] = a['happened']
+            answers[i]['text_blocks'] = a['blocks']
+    return answers
+
+
+def text_comparable(case, obs):
+    """True, or the reason why the exact-text comparison does not apply to this end-to-end observation"""
+    out = obs.get('out') or {}
+    if case.get('reporter', 'console') == 'json':
+        return 'json'
+    if not out.get('textlog'):
+        return 'no complete_run'
+    if out.get('textlog_bad'):
+        return 'recorder: %s' % out['textlog_bad']
+    if out.get('raised') or out.get('text') is None:
+        return 'complete_run raised'
+    if case.get('out_encoding'):
+        return 'restricted output encoding'
+    return True
 
 
 def count19(st, case, obs):
+    if case.get('reporter') != 'json':
+        tc = text_comparable(case, obs)
+        st.count('text_e2e:%s' % ('compared' if tc is True else 'skipped(%s)' % tc))
+        if tc is True:
+            st.count('text_e2e:chars', len(obs['out'].get('text') or ''))
     runlib.count_case(st, case, obs)
     st.count('reporter:%s' % case.get('reporter'))
     st.count('reporter:%s:%s' % (case.get('reporter'), case['runner']))
@@ -966,6 +1024,8 @@ def decorate(c, rng):
 
 def eval_batch(batch):
     """worker: batch = {'cases': [...]} / {'gen': [(seed, knobs, reporter)]} / {'exhaustive': [thread cases]}"""
+    if 'text_gen' in batch or 'text_cases' in batch:
+        return c19text.eval_text_batch(batch)        # wave 5: the text reporter classes driven directly
     st = common.WorkerStats()
     common.use_repo()
     pairs = []
@@ -1158,7 +1218,13 @@ def run(ctx, scale=1.0):
     cpool, cmain = corpus_batches()
     ctx.count('corpus', sum(len(b.get('cases', [])) + len(b.get('exhaustive', [])) for b in cpool + cmain))
     pool, main = plan(ctx, scale)
-    batches = cpool + exhaustive_batches(ctx) + pool
+    n_text = int((3000 if ctx.tier == 'quick' else 40000) * ctx.boost * scale)
+    tseeds = [ctx.rng.randrange(1 << 60) for _ in range(n_text)]
+    tcorp = [c for _n, c in common.load_corpus(PROP + 'text')]
+    text = [{'text_gen': tseeds[i:i + 500]} for i in range(0, n_text, 500)]
+    if tcorp:
+        text.insert(0, {'text_cases': tcorp})
+    batches = cpool + text + exhaustive_batches(ctx) + pool
     for st in common.pmap(eval_batch, batches):
         st.merge_into(ctx)
     if ctx.violations:
@@ -1175,6 +1241,19 @@ def search(ctx):
 
 def replay(ctx, data):
     w = data.get('witness') or {}
+    if w.get('text_case'):
+        tc = w['text_case']
+        real, req, ans, probs = c19text.check_one(tc)
+        print('%s reporter driven directly, failure_verbosity=%s' % (tc['cls'], tc['fv']))
+        for i, t in enumerate(req['tasks']):
+            print('  task %d: %s' % (i, t))
+        print('  calls:', req['calls'])
+        print('real outstream :\n' + real['out'])
+        print('model outstream:\n' + ans.get('out', '<driver error>'))
+        print('real stderr : %r\nmodel stderr: %r' % (real['err'], ans.get('err')))
+        if probs:
+            print('FAILED monitors: [%r]' % TEXT_KEY, probs)
+        return not probs
     case = w.get('case')
     if not case:
         print('nothing to replay (no failing input was found): %s' % data.get('note'))
